@@ -44,6 +44,11 @@ def _docstring(description: Any) -> str:
     return repr(description)
 
 
+def _has_surrogates(text: str) -> bool:
+    """Lone surrogates can be held by a `str` but not by a docstring."""
+    return any("\ud800" <= char <= "\udfff" for char in text)
+
+
 class ObjectClassDict(dict):
     """Overriden class dictionary for the metaclass of Object.
 
@@ -208,6 +213,7 @@ class ObjectMeta(type, Element):
                     param.name == "description"
                     and isinstance(value, str)
                     and value
+                    and not _has_surrogates(value)
                     and isinstance(
                         getattr(super_cls, "description", NotPassed()),
                         NotPassed,
@@ -218,7 +224,9 @@ class ObjectMeta(type, Element):
             cls_args.append(f"{param.name}={repr(value)}")
         class_def = f"""class {repr(cls)}({', '.join(cls_args)}):
 """
-        if isinstance(cls.description, str):
+        if isinstance(cls.description, str) and not _has_surrogates(
+            cls.description
+        ):
             class_def += f"    {_docstring(cls.description)}\n"
         if not cls.properties:
             class_def = (
